@@ -14,6 +14,7 @@ import heapq
 
 import usim
 from usim.py import Environment, Interrupt
+from usim.py.events import AnyOf, AllOf, Condition
 
 from .runner import InvalidCase
 
@@ -43,6 +44,8 @@ class Real:
         self.watch_log = []    # (ev id, kind, time, payload)
         self.procs = {}
         self.flags = [usim.Flag() for _ in range(prog.get('nflags', 0))]
+        self.api_errors = []
+        self.cond_values = []  # (event id, value) as read through condition values
 
     def setup(self, env):
         self.env = env
@@ -65,8 +68,42 @@ class Real:
             out = []
             for e in v.events:
                 out.append(self.ev_id.get(id(e), 'p'))
+            self.check_value_api(v)
             return ('cond', tuple(sorted(map(str, out))))
         return v
+
+    def check_value_api(self, v):
+        """the documented dict-like view of a condition's value: every way of reading it tells the same"""
+        bad = self.api_errors
+        try:
+            keys = list(v.keys())
+            if keys != list(v) or keys != list(v.events):
+                bad.append('keys() / iteration / events differ')
+            d = v.todict()
+            if list(d.keys()) != list(dict.fromkeys(keys)):       # (an event that is a member twice is listed twice)
+                bad.append('todict() has other keys')
+            vals = list(v.values())
+            items = list(v.items())
+            for i, e in enumerate(keys):
+                if e not in v:
+                    bad.append('a member is not `in` the value')
+                if not (v[e] is e.value or v[e] == e.value) or not (vals[i] is e.value or vals[i] == e.value) or items[i][0] is not e:
+                    bad.append('value[event] / values() / items() differ from event.value')
+                k = self.ev_id.get(id(e))
+                if k is not None:
+                    self.cond_values.append((k, e.value))
+            if not (v == d) or not (v == type(v)(*keys)):
+                bad.append('value != its own todict() / an equal ConditionValue')
+            other = self.env.event()
+            if other in v:
+                bad.append('a foreign event is `in` the value')
+            try:
+                v[other]
+                bad.append('value[foreign event] did not raise KeyError')
+            except KeyError:
+                pass
+        except Exception as e:      # noqa
+            bad.append('reading the value raised %s: %s' % (type(e).__name__, e))
 
     def gen(self, spec, phase):
         env = self.env
@@ -128,7 +165,16 @@ class Real:
                 for sub in s.get('sub', ()):
                     se = [self.events[k] for k in sub['evs']]
                     evs.append(env.any_of(se) if sub['kind'] == 'any' else env.all_of(se))
-                c = env.any_of(evs) if s['kind'] == 'any' else env.all_of(evs)
+                via = s.get('via', 'call')
+                if s['kind'] == 'atleast':
+                    # a condition with an evaluation function of the program's own
+                    c = Condition(env, lambda events, count, k=s['k']: count >= k, evs)
+                elif via == 'op' and len(evs) == 2:
+                    c = (evs[0] | evs[1]) if s['kind'] == 'any' else (evs[0] & evs[1])
+                elif via == 'cls':
+                    c = (AnyOf if s['kind'] == 'any' else AllOf)(env, evs)
+                else:
+                    c = env.any_of(evs) if s['kind'] == 'any' else env.all_of(evs)
                 yield from wait(i, c)
             elif op == 'interrupt':
                 p = self.procs.get(s['proc'])
@@ -530,6 +576,9 @@ class Model:
                     self.check_cond(sc)
                     members.append(sc)
                 c = MCond(s['kind'], members)
+                c.k = s.get('k')
+                if s['kind'] == 'atleast' and not (1 <= (c.k or 0) <= len(members)):
+                    raise InvalidCase('atleast')
                 c.owner = (p.name, i)
                 for m in members:
                     m.parents.append(c)
@@ -636,7 +685,10 @@ class Model:
             self.trigger(c, ('fail', failed[0].state[1]))
             return
         n = len(fired)
-        ok = (n == len(c.members)) if c.kind == 'all' else (n > 0 or not c.members)
+        if c.kind == 'atleast':
+            ok = n >= c.k
+        else:
+            ok = (n == len(c.members)) if c.kind == 'all' else (n > 0 or not c.members)
         if ok:
             # value: members fired strictly before are in, same-step ones may be in
             must = tuple(sorted(str(m.eid) for m in fired if m.time < self.now))
